@@ -611,7 +611,6 @@ class MultiSetup_PreGER(BaseSetup, GeometryMixin):
                 ftype=ftype,
                 axis=axis,
                 zero_phase=zero_phase,
-                **kwargs,
             )
             newdatasets.append(newdata)
             Ndats.append(Ndat)
